@@ -5,3 +5,4 @@ import Driver.Output
 import Driver.Remote
 import Driver.Quote
 import Driver.Vars
+import Driver.Load
